@@ -186,6 +186,12 @@ pub fn gen(rng: &mut Rng, thorough: bool, out: &mut Out) -> Vec<Value> {
         for kind in ID_KINDS {
             cases.push(json!({"op":"id","fam":"c20.id","kind":kind,"s":s,"nt":true}));
         }
+        #[cfg(feature = "unit_hooks")]
+        if s.len() % 3 == 0 {
+            for name in RE_NAMES {
+                cases.push(json!({"op":"re","fam":"c20.method","site":"method","name":name,"s":s,"nt":true}));
+            }
+        }
     }
     out.count_n("c20:strings", strings.len() as u64);
     // schemas: attribute-name lists around the bounds, duplicates, odd issuer ids
@@ -240,6 +246,17 @@ pub fn eval(case: &Value) -> Value {
                 "legacy_rev_reg" => &h::LEGACY_REV_REG_DEF_IDENTIFIER,
                 _ => return json!({"unknown_re": true}),
             };
+            // site "method": the public classification methods of the identifier types apply the same patterns
+            if case["site"] == "method" {
+                let i = IssuerId::new_unchecked(s);
+                return json!(match case["name"].as_str().unwrap_or("") {
+                    "uri" => i.is_uri() && SchemaId::new_unchecked(s).is_uri() && CredentialDefinitionId::new_unchecked(s).is_uri() && RevocationRegistryDefinitionId::new_unchecked(s).is_uri(),
+                    "legacy_did" => i.is_legacy_did_identifier(),
+                    "legacy_schema" => SchemaId::new_unchecked(s).is_legacy_schema_identifier(),
+                    "legacy_cred_def" => CredentialDefinitionId::new_unchecked(s).is_legacy_cred_def_identifier(),
+                    _ => RevocationRegistryDefinitionId::new_unchecked(s).is_legacy_rev_reg_def_identifier(),
+                });
+            }
             json!(re.captures(s).is_some())
         }
         "id" => json!(match case["kind"].as_str().unwrap_or("") {
